@@ -76,6 +76,10 @@ ROLES = {
     "a": (0x61, lambda: [c for c in range(0x61, 0x7B) if c != 0x6C]),
     "A": (0x41, lambda: list(range(0x41, 0x5B))),
     "l": (0x6C, lambda: [0x6C]),
+    "capJ": (0x4A, lambda: [0x4A]),          # J + U+030C: only the lowercase has a precomposed form (U+01F0)
+    "capH": (0x48, lambda: [0x48, 0x54, 0x57, 0x59]),   # H/T/W/Y + U+0331/0308/030A: likewise (U+1E96..U+1E99)
+    "caron": (0x30C, lambda: [0x30C]),
+    "macronb": (0x331, lambda: [0x331, 0x308, 0x30A]),
     "d1": (0x31, lambda: list(range(0x30, 0x3A))),
     "hy": (0x2D, lambda: [0x2D, 0x2B]),
     "dot": (0x2E, lambda: [0x2E, 0x2C, 0x3A, 0x2F]),
